@@ -14,6 +14,7 @@ THEOREMS = [
     "C23.async_late_last_then_completed",
     "C23.async_error_only",
     "C23.async_empty_completes",
+    "C23.async_natural",
     "C23.run_reachable",
 ]
 KIND = "async"
